@@ -133,6 +133,7 @@ func (e *Env) RFragHelpers() {
 // comment of the file becomes a fragment, and the attachment loops end only by finding a
 // decoration point or panicking.
 func (e *Env) RFragOrder() {
+	e.RAttachWithinFile()
 	pkg := e.Prog.Pkg(load.PkgDecorator)
 	info := pkg.TypesInfo
 	c := e.Sib.Ctx[load.PkgDecorator]
